@@ -351,6 +351,7 @@ void parse_itmz_token_chain(mmd_engine * e, token * chain) {
 		free(e->dstr->str);
 		e->dstr->str = metadata->str;
 		e->dstr->currentStringLength = metadata->currentStringLength;
+		e->dstr->currentStringBufferSize = metadata->currentStringBufferSize;
 
 		d_string_free(metadata, false);
 		d_string_free(final, true);
@@ -380,6 +381,7 @@ void mmd_convert_itmz_string(mmd_engine * e, size_t start, size_t len) {
 		free(e->dstr->str);
 		e->dstr->str = text->str;
 		e->dstr->currentStringLength = text->currentStringLength;
+		e->dstr->currentStringBufferSize = text->currentStringBufferSize;
 
 		d_string_free(text, false);
 
